@@ -18,7 +18,9 @@ static bool check_one(const uint8_t *doc, size_t n, int root_kind, int max_depth
     memset(P, 0xC3, sizeof *P);
     memset(st, 0x3C, sizeof(binson_state) * (size_t)max_depth);
     P->state = st; P->max_depth = (uint_fast8_t)max_depth;
-    bool init = (root_kind == K_OBJ) ? binson_parser_init_object(P, exact, n) : binson_parser_init_array(P, exact, n);
+    static unsigned which_init;
+    /* object roots go through both spellings of the entry point: binson_parser_init (the documented default: an object) and init_object */
+    bool init = (root_kind == K_OBJ) ? ((which_init++ & 1) ? binson_parser_init(P, exact, n) : binson_parser_init_object(P, exact, n)) : binson_parser_init_array(P, exact, n);
     if (init && (hist_counter++ % 5) == 0) {
         /* the verdict must not depend on what the object did since init: an abandoned walk and/or a latched error */
         bool b = (root_kind == K_OBJ) ? binson_parser_go_into_object(P) : binson_parser_go_into_array(P);
